@@ -17,9 +17,10 @@ from .core import Check
 from .tlc import MachineryError, validate_trace
 
 FAM_QUICK = [("mrings", 3, 8, range(0, 4)), ("mpoly2", 5, 32, range(0, 6)), ("mpoly3", 5, 16, range(0, 2)),
-             ("mmulti", 3, 512, range(0, 4)), ("mmulti2", 5, 8, range(0, 2)), ("holed", 5, 16, range(0, 2)), ("polygon", 3, 16, range(0, 3))]
+             ("mmulti", 3, 512, range(0, 4)), ("mmulti2", 5, 8, range(0, 2)), ("holed", 5, 16, range(0, 2)), ("polygon", 3, 16, range(0, 3)),
+             ("mdegshell", 5, 4, range(0, 2))]
 FAM_THOROUGH = [("mrings", 3, 8, None), ("mpoly2", 5, 16, None), ("mpoly3", 5, 8, None), ("mmulti", 3, 64, range(0, 16)),
-                ("mmulti2", 5, 8, None), ("holed", 5, 8, None), ("polygon", 3, 8, None), ("multipolyvalid", 3, 16, range(0, 4))]
+                ("mmulti2", 5, 8, None), ("holed", 5, 8, None), ("polygon", 3, 8, None), ("multipolyvalid", 3, 16, range(0, 4)), ("mdegshell", 5, 4, None)]
 
 IMAGES = [geom.IDENT, geom.Affine(2.0 ** -30, 0.0, 2.0 ** -30, 0.0, name="tiny"), geom.Affine(2.0 ** -16, 3.0, 2.0 ** -20, -1.0, name="tiny-aniso"),
           geom.Affine(1024.0, 2.0 ** 22, 512.0, -(2.0 ** 22), name="big"), geom.Affine(1.0, -9.0, 2.0, -30.0, name="neg")]
